@@ -367,6 +367,9 @@ func (r *c13run) checkTraceFile(tracePath string) (applies int, files []*sftrace
 			r.viol("C13:size-shrank", fmt.Sprintf("unit %s: StdoutSize rewritten from %d to %d (State %d -> %d) by %s", id, osz, nsz, os_, ns, who))
 		}
 	}
+	for _, what := range releaseOrderProblems(evs) {
+		r.viol("C13:release-unregisters-before-removal", what)
+	}
 	files = sftrace.Split(evs, nil)
 	for _, ft := range files {
 		ft.Events = sftrace.WithCrashes(ft)
